@@ -22,6 +22,7 @@ type Violation struct {
 	Func   string            `json:"func"`
 	Detail string            `json:"detail,omitempty"`
 	Model  []DrawValue       `json:"model,omitempty"`
+	AltModel []DrawValue     `json:"alt_model,omitempty"` // the solver's own (non-generic) model
 	Notes  []string          `json:"notes,omitempty"`
 	Extra  map[string]string `json:"extra,omitempty"`
 	PCSize int               `json:"pc_size"`
@@ -330,6 +331,7 @@ func (ex *Exec) recordViolation(st *State, label string, neg *Term, detail strin
 		return
 	}
 	ex.vioSeen[key] = true
+	var rawVals []*big.Int
 	// Generic model: octets the counterexample does not depend on get arbitrary non-trivial values instead
 	// of the solver's default (usually zero), so that a native replay does not pass by coincidence (e.g. an
 	// all-zero key that HMAC's own zero padding makes equivalent to its truncation).
@@ -374,6 +376,7 @@ func (ex *Exec) recordViolation(st *State, label string, neg *Term, detail strin
 		}
 		if len(kept) > len(base) {
 			if r2, v2 := ex.solver.Check(kept, want); r2 == Sat && v2 != nil {
+				rawVals = vals
 				vals = v2
 			}
 		}
@@ -381,6 +384,9 @@ func (ex *Exec) recordViolation(st *State, label string, neg *Term, detail strin
 	v := &Violation{Label: label, Site: site, Func: fn, Detail: detail, Notes: append([]string(nil), st.notes...), PCSize: len(st.pc)}
 	if vals != nil || len(want) == 0 {
 		v.Model = ex.modelOf(st, vals)
+		if rawVals != nil {
+			v.AltModel = ex.modelOf(st, rawVals)
+		}
 	}
 	ex.res.Violations = append(ex.res.Violations, v)
 }
